@@ -103,6 +103,24 @@ func isProtoStruct(st *types.Struct) bool {
 
 type protoErr struct{ msg string }
 
+// unknownIdx returns the index of the generated struct's unknownFields field (the
+// raw bytes of fields the message type does not know, which the runtime keeps and
+// re-emits), or -1.
+func unknownIdx(st *types.Struct) int {
+	for i := 0; i < st.NumFields(); i++ {
+		f := st.Field(i)
+		if f.Name() != "unknownFields" {
+			continue
+		}
+		if sl, ok := f.Type().Underlying().(*types.Slice); ok {
+			if b, ok := sl.Elem().Underlying().(*types.Basic); ok && b.Kind() == types.Uint8 {
+				return i
+			}
+		}
+	}
+	return -1
+}
+
 // ---- deep copy / merge / reset -------------------------------------------------
 
 func (p *Path) deepCopy(t types.Type, v value) value {
@@ -122,7 +140,7 @@ func (p *Path) deepCopy(t types.Type, v value) value {
 		r := make(structure, len(s))
 		proto := isProtoStruct(u)
 		for i := range s {
-			if proto && !u.Field(i).Exported() {
+			if proto && !u.Field(i).Exported() && u.Field(i).Name() != "unknownFields" {
 				r[i] = p.zero(u.Field(i).Type()) // runtime-internal state is not copied
 				continue
 			}
@@ -193,6 +211,12 @@ func (p *Path) isDefault(t types.Type, v value) *Term {
 // mergeMsg merges src into dst (both structure values of message type st).
 func (p *Path) mergeMsg(st *types.Struct, dst *value, src structure) {
 	d := (*dst).(structure)
+	if ui := unknownIdx(st); ui >= 0 {
+		if su, _ := src[ui].([]value); len(su) > 0 {
+			du, _ := d[ui].([]value)
+			d[ui] = append(append([]value(nil), du...), su...)
+		}
+	}
 	for _, f := range protoFields(st) {
 		if f.oneof {
 			if it := src[f.idx].(iface); it.t != nil {
@@ -436,7 +460,14 @@ func (p *Path) marshalMsg(st *types.Struct, s structure) []*Term {
 			out = append(out, p.encodeScalar(f.wire, ft, v)...)
 		}
 	}
-	// unknown fields preserved by the runtime are not modelled (always empty here)
+	// unknown fields kept by the runtime are re-emitted after the known ones
+	if ui := unknownIdx(st); ui >= 0 {
+		if u, _ := s[ui].([]value); len(u) > 0 {
+			for _, b := range u {
+				out = append(out, b.(*Term))
+			}
+		}
+	}
 	return out
 }
 
@@ -572,7 +603,9 @@ func (p *Path) unmarshalInto(st *types.Struct, dst *value, body []*Term) {
 	fields := protoFields(st)
 	d := &pdec{p: p, b: body}
 	s := (*dst).(structure)
+	ui := unknownIdx(st)
 	for d.pos < len(d.b) {
+		tagStart := d.pos
 		tag := d.varint()
 		// which known field (with its expected wire type) is it?
 		var hit *pfield
@@ -599,6 +632,15 @@ func (p *Path) unmarshalInto(st *types.Struct, dst *value, body []*Term) {
 			wtT := tc.Extract(tag, 2, 0)
 			wt := int(p.concretize(wtT, false, 0, 7))
 			d.skip(wt)
+			if ui >= 0 {
+				// the runtime keeps the raw bytes of the field
+				u, _ := s[ui].([]value)
+				u = append([]value(nil), u...)
+				for _, b := range d.b[tagStart:d.pos] {
+					u = append(u, b)
+				}
+				s[ui] = u
+			}
 			continue
 		}
 		ft := st.Field(hit.idx).Type()
